@@ -167,6 +167,10 @@ def earliest_deadline(ctx, rule='earliest-deadline'):
     if not nt:
         r.lost(rule, 'next_timeout:local', 'local next_timeout not found'); return
     n = 0; probs = []
+    DL = r'\.deadline$'; NOW = r'^Instant::now\(\)$|^now\(_\d+\)$'; CUR = r'^next_timeout\(_\d+\)@Some\.0$'
+    def first_or_later(raw):
+        t = [fmt_lit(b, l) for l in raw]
+        return any(re.match(r'^next_timeout\(_\d+\) is None$', x) for x in t) or holds_order(b, raw, CUR, '>', DL)
     for d in b.defs().get(nt[0], []):
         if d[0] != 'stmt':
             continue
@@ -174,20 +178,25 @@ def earliest_deadline(ctx, rule='earliest-deadline'):
         if not (sy[0] == 'agg' and sy[3] == 'Some'):
             continue
         n += 1
-        lits = [fmt_lit(b, l) for l, e in F.literals_at(d[1], d[2])]
-        first = any(re.match(r'^next_timeout\(_\d+\) is None$', x) for x in lits)
-        later = any(re.match(r'^PartialOrd::gt\(&next_timeout\(_\d+\)@Some\.0, &\*?.*\.deadline\) == True$', x) or
-                    re.match(r'^PartialOrd::lt\(&\*?.*\.deadline, &next_timeout\(_\d+\)@Some\.0\) == True$', x) for x in lits)
-        pending = any(re.match(r'^PartialOrd::le\(&\*?.*\.deadline, &Instant::now\(\)\) == False$', x) or re.match(r'^PartialOrd::gt\(&\*?.*\.deadline, &Instant::now\(\)\) == True$', x) for x in lits)
-        if not ((first or later) and pending):
-            probs.append('next_timeout is replaced by a deadline under [%s]' % '; '.join(x[-70:] for x in lits if 'deadline' in x or 'next_timeout' in x))
+        raw = [l for l, e in F.literals_at(d[1], d[2])]
+        upd = first_or_later(raw)
+        if not upd:
+            # the decision may sit in a boolean local (`let is_earlier = match .. { .. }`): every way it can be true must be one of the two
+            for l in raw:
+                if l[0] == 'truth' and l[2] is True and l[1][0] == 'place' and not l[1][2] and b.locals[l[1][1]] == 'bool':
+                    outs = local_bool_outcomes(b, F, l[1][1], True)
+                    if outs and all(first_or_later(conj) for conj in outs):
+                        upd = True
+        pending = holds_order(b, raw, DL, '>', NOW)
+        if not (upd and pending):
+            probs.append('next_timeout is replaced by a deadline under [%s]' % '; '.join(fmt_lit(b, x)[-70:] for x in raw if 'deadline' in fmt_lit(b, x) or 'next_timeout' in fmt_lit(b, x)))
     pushes = [c for c in b.calls() if c.callee.endswith('Vec::push')]
     for c in pushes:
         n += 1
-        lits = [fmt_lit(b, l) for l, e in F.literals_at(c.bb)]
-        if not any(re.match(r'^PartialOrd::le\(&\*?.*\.deadline, &Instant::now\(\)\) == True$', x) for x in lits):
+        raw = [l for l, e in F.literals_at(c.bb)]
+        if not holds_order(b, raw, DL, '<=', NOW):
             probs.append('a request is queued for time-out without `deadline <= now`')
-    if n < 3:
+    if n < 2 or not pushes:
         r.lost(rule, 'sites', 'deadline updates / time-out queueing not recognised in next_timeout'); return
     if probs:
         r.fail(rule, 'next_timeout', 'the transport does not wake up at the earliest pending deadline: %s - a request whose deadline passed is only timed out when a later one expires '
